@@ -161,6 +161,10 @@ class World:
 
             def call(obj, *args, **kw):
                 ab = Abs({}, {}, dict(summ), obj)
+                ab.self_class = (self.repo, sa_cls)          # other (private, static) methods of the class are interpreted from their source
+                ab.class_methods = set(sa_cls.methods) | set(sa_cls.getters)
+                ab.module = fn.module
+                ab.cur_cls = fn.cls
                 a = dict(zip(fn.params[1:], args))
                 a.update(kw)
                 kind, v = ab.run_function(fn.node, a)
